@@ -34,6 +34,8 @@ def update_specs(alpha):
         ("fields-none", W.mkspec(fields={"v": None})),
         ("unset-tag", W.mkspec(unset_tags="a")),
         ("unset-fields", W.mkspec(unset_fields=["v", "w"])),
+        ("unset-tags-oneshot-iterator", W.mkspec(unset_tags=("it", ("a",)))),
+        ("unset-fields-oneshot-iterator", W.mkspec(unset_fields=("it", ("v", "w")))),
         ("set-and-unset", W.mkspec(tags={"a": z}, unset_tags="a")),
         ("set-and-unset-field", W.mkspec(fields={"w": 9}, unset_fields=["w"])),
         ("time+fields", W.mkspec(time=t[3], fields={"w": 9})),
